@@ -23,8 +23,26 @@ structure St where
   expired : Option Nat := none                    -- former holder of a lock that ran out
   lastPos : List (Nat × String) := []             -- node → position text of its last `state` line
   group : List (Nat × String) := []               -- positions observed since the last operation that could change one
+  bg : List (String × String) := []               -- halt requests issued in the background: (node, lock id)
 
 def posText (obs : String) : String := (fieldOf (words obs) "pos").getD ""
+
+/-- judgement of an answered halt-lock request of node `r` with lock id `id` -/
+def haltRule (st : St) (r id obs : String) : St × String :=
+  let r := r.toNat?.getD 0
+  (match st.halt with
+   | some (hr, hid, ans) =>
+     if hr = r ∧ hid = id then
+       (st, if obs == ans then "ok" else s!"FAIL repeated acquire of halt lock {id} answered {obs.take 60}, first answer {ans}")
+     else (st, if obs.startsWith "ok" then s!"FAIL a second halt lock ({id}) was granted while lock {hid} is held" else "ok")
+   | none =>
+     if obs.startsWith "ok pos=" then
+       let p := (obs.drop 7).toString
+       let primaryPos := (st.cl.primary >>= fun k => st.lastPos.lookup k).getD p
+       let st' := { st with halt := some (r, id, obs), short := st.ttlShort }
+       if p ≠ primaryPos then (st', s!"FAIL halt lock granted at {p}, the primary's last reported position is {primaryPos}")
+       else (st', "ok")
+     else (st, "ok"))
 
 def check (st : St) (op obs : String) : St × String :=
   let f := words op
@@ -32,21 +50,12 @@ def check (st : St) (op obs : String) : St × String :=
   | ["case", _] => ({}, "ok")
   | ["pause"] => (st, "ok")
   | ["halt-ttl", _, v] => ({ st with ttlShort := v == "short" }, "ok")
-  | ["halt", r, id] =>
-    let r := r.toNat?.getD 0
-    (match st.halt with
-     | some (hr, hid, ans) =>
-       if hr = r ∧ hid = id then
-         (st, if obs == ans then "ok" else s!"FAIL repeated acquire of halt lock {id} answered {obs.take 60}, first answer {ans}")
-       else (st, if obs.startsWith "ok" then s!"FAIL a second halt lock ({id}) was granted while lock {hid} is held" else "ok")
-     | none =>
-       if obs.startsWith "ok pos=" then
-         let p := (obs.drop 7).toString
-         let primaryPos := (st.cl.primary >>= fun k => st.lastPos.lookup k).getD p
-         let st' := { st with halt := some (r, id, obs), short := st.ttlShort }
-         if p ≠ primaryPos then (st', s!"FAIL halt lock granted at {p}, the primary's last reported position is {primaryPos}")
-         else (st', "ok")
-       else (st, "ok"))
+  | ["halt", r, id] => haltRule st r id obs
+  | ["halt-bg", r, id] => ({ st with bg := (r, id) :: st.bg.filter (·.1 ≠ r) }, "ok")
+  | ["halt-join", r] =>
+    (match st.bg.lookup r with
+     | some id => haltRule { st with bg := st.bg.filter (·.1 ≠ r) } r id obs
+     | none => (st, "ok"))
   | ["unhalt", r, id] =>
     let r := r.toNat?.getD 0
     (match st.halt with
